@@ -28,26 +28,43 @@ def cmp : Gen.GoawayArms.Cmp → Nat → Nat → Bool
 
 /-! ### `ConnectionInner::shutdown` -/
 
-/-- the step list of `ConnectionInner::shutdown(sent_closing, new)` run on the model's state -/
+/-- the step list of `ConnectionInner::shutdown(sent_closing, new)` run on the model's state: the state
+    reached and what the call showed (a GOAWAY frame written, `Ok(())`, or the connection error
+    recorded before) -/
 def runShutdown (new : Nat) : List Gen.GoawayArms.Op → State → Option (State × List Obs)
   | [], _ => none
+  | .reportIfFailed :: r, s => if s.failed then some (s, [.shutdownErr]) else runShutdown new r s
   | .keepIf c :: r, s =>
     match s.sentClosing with
-    | some prev => if cmp c prev new then some (s, []) else runShutdown new r s
+    | some prev => if cmp c prev new then some (s, [.shutdownOk]) else runShutdown new r s
     | none => runShutdown new r s
   | .store :: r, s => runShutdown new r { s with sentClosing := some new }
   | .setClosing :: r, s => runShutdown new r { s with closing := true }
-  | .writeGoaway :: _, s => some (s, [.goaway new])
+  | .writeGoaway :: _, s => some (s, [.goaway new, .shutdownOk])
   | _ :: _, _ => none
 
+/-- the application's `shutdown(n)` (`Goaway.step`): the error check first — a failed connection
+    answers its error, writes nothing and leaves `sent_closing` alone —, then the only-if-lower test,
+    the store, the closing flag, the frame -/
 theorem shutdown_agrees (s : State) (n : Nat) :
-    some (shutdown s n) = runShutdown (shutdownId s.largest n) Gen.GoawayArms.shutdown s := by
-  simp only [Gen.GoawayArms.shutdown, runShutdown, shutdown, keepsPrevious]
-  cases h : s.sentClosing with
-  | none => simp
-  | some g =>
-    simp only [cmp]
-    by_cases hle : g ≤ shutdownId s.largest n <;> simp [hle]
+    some (step s (.shutdown n)) = runShutdown (shutdownId s.largest n) Gen.GoawayArms.shutdown s := by
+  simp only [Gen.GoawayArms.shutdown, runShutdown, step, shutdown, keepsPrevious]
+  cases hf : s.failed with
+  | true => simp
+  | false =>
+    cases h : s.sentClosing with
+    | none => simp
+    | some g =>
+      simp only [cmp]
+      by_cases hle : g ≤ shutdownId s.largest n <;> simp [hle]
+
+/-- the same list without its error check is the model's `shutdown` (used by `accept` for its last
+    GOAWAY, behind `accept`'s own look at the error) -/
+theorem shutdown_unfailed (s : State) (n : Nat) (hf : s.failed = false) :
+    some ((shutdown s n).1, (shutdown s n).2 ++ [Obs.shutdownOk]) =
+      runShutdown (shutdownId s.largest n) Gen.GoawayArms.shutdown s := by
+  rw [← shutdown_agrees]
+  simp [step, hf]
 
 /-- a failing write of the GOAWAY frame closes the connection with H3_CLOSED_CRITICAL_STREAM -/
 theorem shutdown_write_codes :
